@@ -172,7 +172,7 @@ func (g *Gen) listLen() int {
 
 func (g *Gen) vstr(pw int) []byte {
 	var l int
-	switch g.r.Intn(8) {
+	switch g.r.Intn(10) {
 	case 0:
 		l = 0
 	case 1:
@@ -181,6 +181,8 @@ func (g *Gen) vstr(pw int) []byte {
 		l = 256
 	case 3:
 		l = 300 + g.r.Intn(200)
+	case 4:
+		l = []int{61, 62, 63, 64, 65, 66, 126, 127, 128, 129}[g.r.Intn(10)] // around small scratch-buffer sizes
 	default:
 		l = g.r.Intn(40)
 	}
